@@ -268,7 +268,9 @@ class GroupStatusDecoder(
 
     def _decode_temperature(self, has_sensor: bool, byte56: int) -> Optional[float]:  # noqa: FBT001
         encoded_temperature = byte56 & 0xFFE0
-        if not has_sensor or encoded_temperature == _TEMP_UNAVAILABLE:
+        # The temperature is not available whenever Byte5 is 0xff, whatever the
+        # remaining temperature bits in Byte6 are.
+        if not has_sensor or (byte56 & 0xFF00) == _TEMP_UNAVAILABLE:
             return None
         return utils.decode_temperature(encoded_temperature)
 
